@@ -164,6 +164,41 @@ def fuzz(out, s, g, tier, seed):
     return len(done[-1]["outcomes"])
 
 
+def udp(out, s, g, tier, seed):
+    """C16 end to end: every datagram of the size slice sent to the real ServerTask over loopback UDP"""
+    # the daemon receives into a 1024-byte buffer: longer datagrams never reach Server::handle whole
+    edges = [rec for (_, _, rec) in g.edges if rec["act"]["t"] == "Handle" and rec["act"]["cfg"]["info"] == "s2" and rec["out"]["reqlen"] <= 1024]
+    if tier == "quick":
+        rng = random.Random(seed)
+        answered = [r for r in edges if r["out"]["bresp"] != "ignore"]
+        edges = rng.sample(answered, min(400, len(answered))) + rng.sample(edges, min(100, len(edges)))
+    wd = vf.workdir("Server_udp")
+    inp, emitted, res, ks = (os.path.join(wd, n) for n in ("acts.ndjson", "datagrams.ndjson", "udp_results.ndjson", "keyset.bin"))
+    vf.write_ndjson(inp, [{"id": i, "act": r["act"]} for i, r in enumerate(edges)])
+    vf.run_harness(s.crate, s.test, {"mode": "emit", "seed": seed, "input": inp, "output": emitted, "keyset": ks})
+    vf.run_harness("ntpd", "daemon::server::verif_hook::verif_server_udp", {"input": emitted, "output": res, "keyset": ks}, timeout=1500)
+    rows = vf.read_ndjson(res)
+    if len(rows) != len(edges):
+        raise vf.ToolError("udp stage returned %d results for %d datagrams" % (len(rows), len(edges)))
+    n_ans = 0
+    for r in rows:
+        rec = edges[r["id"]]
+        if r["len"] < 0:
+            raise vf.ToolError("udp stage: sentinel not answered after %s" % s.act_sig(rec["act"]))
+        n_ans += 1 if r["len"] > 0 else 0
+        fields = []
+        if r["len"] > r["reqlen"] or r["answers"] > 1:
+            fields.append("fits")
+        if r["len"] != rec["out"]["len"]:
+            fields.append("len")
+        if fields:
+            s.attribute(out, "C16", "Size/udp", rec, {"fields": fields, "observed": r}, [s.act_sig(rec["act"])], "udp")
+    out.add("udp_datagrams_sent", len(rows))
+    out.add("udp_datagrams_answered", n_ans)
+    if n_ans == 0:
+        raise vf.ToolError("vacuous: no datagram answered over UDP")
+
+
 def run(prop, tier, seed):
     level = MANIFEST[prop]["level"]
     out = vf.Outcome(prop, tier, seed, level)
@@ -176,6 +211,8 @@ def run(prop, tier, seed):
     graphs = {}
     for sl in slices:
         graphs[sl] = s.run_slice(out, prop, tier, seed, sl)
+    if prop == "C16":
+        udp(out, s, graphs["Size"], tier, seed)
     if prop == "C22":
         classes = set()
         for (_, _, rec) in graphs["Mut"].edges:
@@ -205,7 +242,7 @@ _N = ("bounded alphabets (see MC_Server.tla): <=3 extension fields from a bounda
       "conformance only on the replayed transitions; cipher treated as ideal; in-process (Server::handle), the daemon's UDP loop is not driven")
 MANIFEST = {p: dict(level="model_checking", technique=_T, note=_N, design_ref="6.5, 7 (Server group)", engine="tlc+replay", text=t) for p, t in {
     "C15": "Deny/allow order and actions, malformed / non-client / non-accepted versions never answered, require-nts, and the positive clause, for 10 address spellings (IPv4, IPv6, IPv4-mapped, mapped subnet) x 37 datagram classes x 24 [60] configurations, on the model and the real Server.",
-    "C16": "Length of every answer produced with the daemon's request-sized buffer <= request length, and equal to the model's size arithmetic, for ~600 [several thousand] extension-field layouts (plain/NTS, v3/v4/v5, time/DENY/NAK).",
+    "C16": "Length of every answer produced with the daemon's request-sized buffer <= request length, and equal to the model's size arithmetic, for ~600 [several thousand] extension-field layouts (plain/NTS, v3/v4/v5, time/DENY/NAK); the same datagrams are also sent to the real ServerTask over loopback UDP and the reply lengths compared (end to end).",
     "C17": "Decision with a request-sized buffer = decision with an 8 KiB buffer for every layout; TLC searches the transcribed size arithmetic for layouts whose answer outgrows the request and the replay confirms them on the code.",
     "C18": "Echo list (unique identifiers outside the encrypted part, v5 reference-id responses, draft id), symbolic header per answer kind and server state, upgrade marker, and canary search for any other request content, for every layout.",
     "C19": "Failing authentication never yields time; time answers open under the cookie's s2c key; fresh cookies <= min(8, cookie+placeholder fields), fit the field they replace and decode under the current key set to the session keys (2 algorithms, old/expired/foreign cookies).",
